@@ -1,6 +1,7 @@
 """C02 — a successful run only emits well-formed code; unsupported constructs are errors.
 
-proof (Lean): declaration fragment of the Go output (lean/Cog/Props/C02.lean);
+proof (Lean): declaration fragment of the Go output and class-declaration fragment of the Python output
+(lean/Cog/Props/C02.lean), both tied to the real printers and compilers on every run;
 exploration (labs): everything rendered by templates, all other languages, placeholder scan.
 """
 import json, os, re, sys, time, collections
@@ -119,7 +120,9 @@ def main():
     c.trusted = [
         "Lean 4.33 kernel; axioms per theorem in obligation_list",
         "PROVED (lean/Cog/Props/C02.lean): for every Go configuration, GoPrintable S and wfNames S imply that the declaration printers finish and everything they print (type declarations, struct fields and tags, enum const blocks, constructor default literals) is accepted by the fragment checker `wellTyped`; the emitted declarations contain a placeholder iff the IR has one of the listed shapes (no hypotheses); six evaluated counterexamples to the unconditional statement",
-        "NOT under any theorem, decided by exploration only: every template-rendered Go method, the import block, builders, converters, the runtime, and ALL of Python, Java, PHP, TypeScript, JSON Schema, OpenAPI (go build under flag combinations, python compileall+import, javac against stub sources of the Jackson surface, byte scan of every emitted file for cog's placeholder texts)",
+        "PROVED (lean/Cog/Props/C02.lean, Python): for every schema set and every snake-case function, PyPrintable and wfNamesPy imply that the Python declaration printers (rawtypes.go, types.go, tools.go, imports.go: import block, class / enum headers, docstrings, members, enum members, aliases, constants, __init__ signature and assignments) finish and the module is accepted by the fragment checker `pyDeclCheck`; three evaluated counterexamples to the unconditional statement, replayed as pinned cases of stream c02-pydecl",
+        "hand-written model lean/Cog/Sem/PyDecl.lean of internal/jennies/python/{rawtypes,types,tools,imports}.go, tied on every run (stream c02-pydecl): with generate_json_marshaller off the emitted models/<pkg>.py is exactly the fragment; model text = file text byte for byte; checker verdict (module + imported sibling modules) = CPython's (compile + fresh import); xstrings.ToSnakeCase is a parameter of the model, the driver's ASCII transcription of it is tied by the same text comparison; `pyDeclCheck` is not CPython: import cycles between sibling modules and everything outside the fragment (to_json / from_json, custom template blocks, builders) are outside",
+        "NOT under any theorem, decided by exploration only: every template-rendered Go method, the import block, builders, converters, the runtime, Python to_json / from_json / builders / runtime, and ALL of Java, PHP, TypeScript, JSON Schema, OpenAPI (go build under flag combinations, python compileall+import, javac against stub sources of the Jackson surface, byte scan of every emitted file for cog's placeholder texts)",
         "hand-written model lean/Cog/Sem/GoDecl.lean of internal/jennies/golang/{types,rawtypes,tools}.go, tied on every run: the model's rendering must equal the declarations cog wrote (type/const declarations and New… functions extracted with go/parser, comments removed, white space removed) and the checker's verdict must equal the Go compiler's verdict on exactly those declarations compiled on their own",
         "`wellTyped` is not the Go type checker: recursive value types are a separate, unproved check of the driver; comparability of map keys, method sets and imports are outside (the compiler runs on the same text)",
         "TypeScript and PHP: no compiler in the sandbox, placeholder scan only; in TypeScript the fallback `unknown` cannot be told from the legitimate type `unknown` by a byte scan",
@@ -146,6 +149,11 @@ def main():
         # finding candidates of the Python declaration fragment, until the coordinator merges them
         have = {f["id"] for f in c.known}
         c.known += [f for f in json.load(open(PY_PROPOSED)).get("findings", []) if f.get("property") == "C02" and f["id"] not in have]
+    names_proposed = os.path.join(VERIF, "checks", "c02.names.proposed_findings.json")
+    if os.path.exists(names_proposed):
+        # finding candidates of the name-casing / constant-spelling shapes (harness/c02_names.go), until merged
+        have = {f["id"] for f in c.known}
+        c.known += [f for f in json.load(open(names_proposed)).get("findings", []) if f.get("property") == "C02" and f["id"] not in have]
     quick = c.tier == "quick"
     seed = c.seed
 
@@ -196,7 +204,8 @@ def main():
             with open(path, "w") as fh:
                 fh.write(src + "\n")
             try:
-                rows = harness(hb, "c02-replay", timeout=3600, file=path, format=fmt, lang=lang, combo=combo.replace(" ", ","))
+                rows = harness(hb, "c02-replay", timeout=3600, file=path, format=fmt, lang=lang, combo=combo.replace(" ", ","),
+                               spell=(re.search(r" trig=\S*spell:(\w+)", v) or [None, ""])[1])   # spelling of constants in the source text
             finally:
                 os.remove(path)
             bad = False
@@ -225,7 +234,8 @@ def main():
         with open(path, "w") as fh:
             fh.write(src + "\n")
         try:
-            rows = harness(hb, "c02-shrink", timeout=1800, file=path, format=fmt, lang=lang, cls=cls, combo=combo.replace(" ", ","), budget=(24 if quick else 80))
+            rows = harness(hb, "c02-shrink", timeout=1800, file=path, format=fmt, lang=lang, cls=cls, combo=combo.replace(" ", ","), budget=(24 if quick else 80),
+                           spell=(re.search(r" trig=\S*spell:(\w+)", v) or [None, ""])[1])
         except Exception as e:
             log("shrinking failed, case reported as found:", str(e)[:300])
             return r
@@ -247,7 +257,7 @@ def main():
                    ("c02-langs", dict(n=6, seed=seed, tier="quick")),
                    ("c02-ir", dict(n=16, seed=seed, tier="quick")),
                    ("c02-ir", dict(n=8, seed=seed, tier="quick", profile="raw")),
-                   ("c02-pydecl", dict(n=400, nsrc=120, seed=seed, tier="quick")),
+                   ("c02-pydecl", dict(n=240, nsrc=80, seed=seed, tier="quick")),
                    ("c02-pydecl", dict(n=150, nsrc=0, seed=seed, tier="quick", profile="raw"))]
     else:
         streams = [("c02-known", {}),
@@ -286,8 +296,8 @@ def main():
              PY["agree-ok"] > 0 and any(k[0] == "hyp:ok" for k in PYHYP), str(dict(PY))[:400])
     c.cov["lab"] = notes
     c.cov["proved_vs_explored"] = {
-        "proved": "Go declaration fragment (types.go / rawtypes.go / tools.go): C02_go_decls_partial, C02_placeholder_iff",
-        "explored": "template-rendered Go (methods, imports, builders, converters, runtime), Python, Java, PHP, TypeScript, JSON Schema, OpenAPI; flag combinations: pairwise covering array over the 7 flags in quick, all 128 in thorough",
+        "proved": "Go declaration fragment (types.go / rawtypes.go / tools.go): C02_go_decls_partial, C02_placeholder_iff; Python class-declaration fragment (python/rawtypes.go, types.go, tools.go, imports.go): C02_py_declarations_wellformed_partial",
+        "explored": "template-rendered Go (methods, imports, builders, converters, runtime), template-rendered Python (to_json / from_json, builders, runtime), Java, PHP, TypeScript, JSON Schema, OpenAPI; flag combinations: pairwise covering array over the 7 flags in quick, all 128 in thorough",
     }
     c.finish("cd /verif/lean && lake build Cog.Props.C02 drv && lake env lean <#print axioms of the C02 theorems>",
              "Src terms x 3 formats and directly constructed IR through the real pipeline under flag combinations with builders/converters/api_reference on and off; go build of every package and of the declaration fragment alone (fragment text and verdict must equal the Lean model `godecl`); python compileall+import; javac against Jackson stubs; placeholder scan of every emitted file in seven languages; oracle = run reported success and (compile error or placeholder) => FAIL; non-trivial = declaration fragment compared with the model, or oracle failure",
